@@ -57,6 +57,22 @@ def _strip_bool(e):
     while isinstance(e, ast.Call) and isinstance(e.func, ast.Name) and \
             e.func.id == "bool" and len(e.args) == 1 and not e.keywords:
         e = e.args[0]
+    # `x in (A, B)` over a short literal of names / constants is
+    # `x == A or x == B` (and `not in` the conjunction of `!=`): one spelling
+    # for "one arm per value" and "merged arms"
+    if isinstance(e, ast.Compare) and len(e.ops) == 1 and \
+            isinstance(e.ops[0], (ast.In, ast.NotIn)) and \
+            isinstance(e.comparators[0], (ast.Tuple, ast.List, ast.Set)) and \
+            2 <= len(e.comparators[0].elts) <= 4 and \
+            isinstance(e.left, (ast.Name, ast.Attribute)) and \
+            all(isinstance(x, (ast.Name, ast.Attribute)) or
+                (isinstance(x, ast.Constant) and x.value is not None)
+                for x in e.comparators[0].elts):
+        neg = isinstance(e.ops[0], ast.NotIn)
+        parts = [ast.Compare(left=e.left, ops=[ast.NotEq() if neg else ast.Eq()],
+                             comparators=[x]) for x in e.comparators[0].elts]
+        return ast.copy_location(ast.BoolOp(
+            op=ast.And() if neg else ast.Or(), values=parts), e)
     return e
 
 
